@@ -235,6 +235,22 @@ func buildRTCases() []rtCase {
 	// no duplicates at all at a boundary size (each batch exactly full)
 	add(idx, 2000, "jsondb-save", true, false, 0)
 	idx++
+	// IDs that are prefixes of other IDs ("SFW-0333", "SFW-0333-a", "SFW-0333-b"), enough of
+	// them that any place at which a reader of the record range might stop and resume is
+	// followed by keys extending the last one read
+	{
+		r := evid.Rand(int64(18100 + idx))
+		l := genList(r, listOpts{N: 1299, Rich: true, DupP: 0})
+		for i := range l {
+			l[i].ID = fmt.Sprintf("SFW-%04d%s", i/3, []string{"", "-a", "-b"}[i%3])
+		}
+		data, lenient, err := encodeStyle(r, "marshal-indent", l)
+		if err != nil {
+			panic("C18 generator: " + err.Error())
+		}
+		cs = append(cs, rtCase{Name: fmt.Sprintf("rt%d-n%d-prefix-ids", idx, len(l)), Style: "marshal-indent", Lenient: lenient, List: l, Data: data})
+		idx++
+	}
 	// small lists in every style
 	nSmall := evid.Pick(36, 400)
 	for i := 0; i < nSmall; i++ {
